@@ -53,7 +53,8 @@ def formula(ctx: Ctx):
     if len(params) != len(CANON):
         ctx.undecided("params", where, params, str(CANON))
         return
-    body = SUMMARIZER.summarize(m.node, {a: ast.Name(id=c, ctx=ast.Load()) for a, c in zip(params, CANON) if a != c})
+    # private helper methods of the class (a `_bases_coincide(table, vector)` predicate) are inlined; properties stay symbolic
+    body = expand(ctx.repo, ci, "_calculate_zscores", bind={a: ast.Name(id=c, ctx=ast.Load()) for a, c in zip(params, CANON)}, stop=lambda mm: mm.kind in ("lazyproperty", "property"))
     paths = strip_ifexp_paths(body)
     ctx.held("params", where, params, "four positional operands: counts, table bases, row bases, column bases")
     from ..exprdiff import canon
@@ -116,7 +117,15 @@ def classify_degenerate_guard(ctx: Ctx, where: str, g: str):
     bad = []
     unknown = []
     for p in parts:
-        if isinstance(p, ast.Call) and u(p.func) in ("np.all", "np.any") and len(p.args) == 1 and isinstance(p.args[0], ast.Compare):
+        if isinstance(p, ast.Call) and u(p.func) in ("np.allclose", "np.isclose") and len(p.args) >= 2:
+            sides = {u(p.args[0]), u(p.args[1])}
+            kws = {k.arg for k in p.keywords}
+            if sides in ({"table_bases", "row_bases"}, {"table_bases", "column_bases"}) and not ({"rtol", "atol"} & kws) and len(p.args) == 2:
+                # default tolerances: rtol = 1e-5 - a base within 0.001 % of the table base counts as "the whole table"
+                bad.append(u(p) + " (relative tolerance 1e-5: a subtotal that leaves out a rare category - share below 1e-5 - blanks a block of DEFINED residuals)")
+            else:
+                unknown.append(u(p))
+        elif isinstance(p, ast.Call) and u(p.func) in ("np.all", "np.any") and len(p.args) == 1 and isinstance(p.args[0], ast.Compare):
             c = p.args[0]
             sides = {u(c.left), u(c.comparators[0])}
             if u(p.func) == "np.any":
